@@ -35,10 +35,14 @@ _SAFE_MODULES = {
 
 # documented ancestry of classes from libraries that are NOT installed here (frozen, see DESIGN section 6.8)
 INT_DIGITS = "ValueError[int-max-str-digits]"
+CODEC_ERROR = "UnicodeError[codec]"
 _FROZEN = {
     # synthetic leaf: the *input-dependent* plain ValueError of CPython >= 3.11's integer string conversion limit, kept apart from
     # the ValueError of argument validation (configuration-dependent); `except ValueError` catches it, `except JSONDecodeError` does not
     INT_DIGITS: [INT_DIGITS, "ValueError", "Exception", "BaseException"],
+    # synthetic leaf: the plain UnicodeError (not a UnicodeDecodeError) that some codecs raise on malformed input - "idna"
+    # (`str(b"xn--a-", "idna")`), "punycode", user-registered codecs: `except UnicodeError` catches it, `except UnicodeDecodeError` does not
+    CODEC_ERROR: [CODEC_ERROR, "UnicodeError", "ValueError", "Exception", "BaseException"],
     "trio.BrokenResourceError": ["trio.BrokenResourceError", "Exception", "BaseException"],
     "trio.ClosedResourceError": ["trio.ClosedResourceError", "Exception", "BaseException"],
     "trio.BusyResourceError": ["trio.BusyResourceError", "Exception", "BaseException"],
